@@ -1,12 +1,217 @@
-/-! Executable model for property C13 (core-only).  Not built yet: the driver answers
-    `unimplemented` so that a check of this property cannot pass by accident. -/
+import FpgoVerif.Model.C13Ask
+/-! Executable model for property C13 (core-only): the line protocol on top of `C13Ask.step`.
+
+    Case lines
+    * `ask mcap=<k> n=<n> spec=<K><rcap>,…: op ; op ; …`   directed schedule.  Asker `i` is described by the i-th
+      spec item: kind `O` AskOnce, `T` AskOnceWithTimeout with a timeout that never fires within the case,
+      `S` AskOnceWithTimeout with a short timeout (fires unless the reply arrives first), `C` AskChannel + a
+      receive by the caller; `<rcap>` = capacity of the reply channel (`NewByOptions`), 0 = `New`.
+      The actor parks before every reply (`ask.reply.beforeSend`); `S` askers park when their timer fired
+      (`ask.timeout.fired`).  Ops:
+        `a<i>`  asker i starts its call            `r`     release the actor into the `select` of `Reply`
+        `w<i>`  wait until asker i's timer fired   `u<i>`  release asker i: `close(done)`, return the timeout
+      Observation after every op (after everything that can move has moved):
+        `<asker states>/<actor state>`  askers: `-` not started, `w` in its call (possibly parked after its timer
+        fired), `V` returned a value, `T` returned the timeout; actor: `i` idle, `p<k>` parked before replying to k,
+        `b<k>` blocked in the select of the reply to k.
+      Last: `end <status> res=<i:V<value>|T|-,…> srv=<requests served, in order> pan=<panics>`.
+    * `askstress mcap=… n=… m=… rcap=… to=… seed=…`   free-running; observation `ok`. -/
+
 namespace FpgoVerif.C13
 
-/-- one protocol case line in, one canonical observation line out -/
-def handle (_line : String) : String := "unimplemented"
+def payloadOf (i : Nat) : Nat := 100 + 13 * i
+def replyFn (i p : Nat) : Nat := p * 7 + i + 1
 
-/-- spec-level oracle: given the case line and the observation printed by the real code, decide
-    whether the *property* is violated (`violation <why>`) or not (`allowed <why>`). -/
-def judge (_line _impl : String) : String := "violation model-and-implementation-disagree"
+structure Sched where
+  st : St
+  cfg : Cfg
+  n : Nat
+  short : Nat → Bool         -- asker i is an `S` asker
+  sendQ : List Nat           -- askers blocked in Send, oldest first
+  released : Bool            -- the actor was released from `ask.reply.beforeSend` for its current reply
+
+def Sched.try (x : Sched) (a : Act) : Option Sched := (step x.cfg x.st a).map fun t => { x with st := t }
+
+def firstSome {α} (l : List Nat) (f : Nat → Option α) : Option α :=
+  match l with
+  | [] => none
+  | i :: rest => match f i with
+    | some r => some r
+    | none => firstSome rest f
+
+def settle1 (x : Sched) : Option Sched :=
+  let ids := List.range x.n
+  match firstSome ids (fun i => x.try (.finish i)) with
+  | some y => some y
+  | none =>
+  match firstSome ids (fun i => x.try (.recv i)) with
+  | some y => some y
+  | none =>
+  match x.try .compute with
+  | some y => some { y with released := false }
+  | none =>
+  match (if x.released then (match x.try .replySend with | some y => some y | none => x.try .replyDone) else none) with
+  | some y => some { y with released := false }
+  | none =>
+  match x.try .take with
+  | some y => some y
+  | none =>
+  match x.sendQ with
+  | i :: rest => (x.try (.send i)).map fun y => { y with sendQ := rest }
+  | [] => none
+
+def settle : Nat → Sched → Sched
+  | 0, x => x
+  | fuel + 1, x => match settle1 x with
+    | some y => settle fuel y
+    | none => x
+
+def opArg (tok : String) : Nat := ((tok.drop 1).toString.toNat?).getD 0
+
+def doOp (x : Sched) (tok : String) : Sched :=
+  let i := opArg tok
+  let x := match tok.front with
+    | 'a' =>
+      if i < x.n then
+        match x.try (.call i) with
+        | some y => { y with sendQ := y.sendQ ++ [i] }
+        | none => x
+      else x
+    | 'r' =>
+      match x.st.actor with
+      | .replying _ _ => { x with released := true }
+      | _ => x
+    | 'w' => if x.short i then (x.try (.fire i)).getD x else x
+    | 'u' => (x.try (.giveUp i)).getD x
+    | _ => x
+  settle 4096 x
+
+def askerChar (a : Asker) : Char :=
+  match a.pc with
+  | .idle => '-'
+  | .sending | .waiting | .got _ | .fired => 'w'
+  | .retV _ => 'V'
+  | .retT => 'T'
+
+def Sched.status (x : Sched) : String :=
+  String.ofList ((List.range x.n).map fun i => askerChar (x.st.asker i)) ++ "/" ++
+    (match x.st.actor with
+     | .idle => "i"
+     | .computing k => s!"p{k}"
+     | .replying k _ => if x.released then s!"b{k}" else s!"p{k}")
+
+def Sched.results (x : Sched) : String :=
+  ",".intercalate ((List.range x.n).map fun i =>
+    s!"{i}:" ++ match (x.st.asker i).pc with
+      | .retV v => s!"V{v}"
+      | .retT => "T"
+      | _ => "-")
+
+def kv (toks : List String) (key : String) : String :=
+  match toks.find? (fun t => t.startsWith (key ++ "=")) with
+  | some t => (t.drop (key.length + 1)).toString
+  | none => ""
+
+def kvNat (toks : List String) (key : String) : Nat := ((kv toks key).toNat?).getD 0
+
+def splitOps (body : String) : List String :=
+  ((body.splitOn ";").map (fun t => t.trimAscii.toString)).filter (· ≠ "")
+
+def headBody (line : String) : String × String :=
+  match line.splitOn ": " with
+  | h :: rest => (h, ": ".intercalate rest)
+  | [] => ("", "")
+
+/-- spec item `K<rcap>` -/
+def parseSpec (item : String) : Kind × Nat × Bool :=
+  let k := item.front
+  let rc := ((item.drop 1).toString.toNat?).getD 0
+  match k with
+  | 'O' => (.once, rc, false)
+  | 'C' => (.channel, rc, false)
+  | 'S' => (.timeout, rc, true)
+  | _ => (.timeout, rc, false)
+
+def schedInit (toks : List String) : Sched :=
+  let items := ((kv toks "spec").splitOn ",").map parseSpec
+  let spec : Nat → Kind × Nat × Nat := fun i =>
+    match items[i]? with
+    | some (k, rc, _) => (k, payloadOf i, rc)
+    | none => (.once, payloadOf i, 0)
+  { st := St.init spec, cfg := { mcap := kvNat toks "mcap", reply := replyFn, legacy := false }, n := kvNat toks "n",
+    short := fun i => match items[i]? with | some (_, _, s) => s | none => false,
+    sendQ := [], released := false }
+
+def runAsk (line : String) : String :=
+  let (head, body) := headBody line
+  let toks := head.splitOn " "
+  let (x, outs) := (splitOps body).foldl (fun (acc : Sched × List String) t =>
+    let y := doOp acc.1 t
+    (y, y.status :: acc.2)) (schedInit toks, [])
+  let srv := ",".intercalate (x.st.served.map toString)
+  " | ".intercalate (outs.reverse ++ [s!"end {x.status} res={x.results} srv={srv} pan=0"])
+
+def handle (line : String) : String :=
+  if line.startsWith "ask " then runAsk line
+  else if line.startsWith "askstress " then "ok"
+  else "bad-case"
+
+/-! ### Spec-level oracle -/
+
+/-- the i-th result `i:V<v>` / `i:T` / `i:-` against what the property prescribes -/
+def judgeResult (items : List (Kind × Nat × Bool)) (r : String) : Option String :=
+  match r.splitOn ":" with
+  | [i, v] =>
+    match i.toNat? with
+    | none => some s!"unreadable result '{r}'"
+    | some i =>
+      if v == "-" then none
+      else if v == "T" then
+        match items[i]? with
+        | some (.timeout, _, _) => none
+        | _ => some s!"asker {i} got a timeout from a call that has none"
+      else if v.startsWith "V" then
+        if (v.drop 1).toString.toNat? == some (replyFn i (payloadOf i)) then none
+        else some s!"asker {i} received {v}, not the reply to its own request ({replyFn i (payloadOf i)})"
+      else some s!"asker {i}: result {v} is neither (reply, nil) nor (zero, ErrActorAskTimeout)"
+  | _ => some s!"unreadable result '{r}'"
+
+def judgeAsk (line impl : String) : String :=
+  if impl == "hang" then "violation the schedule did not terminate (an asker or the actor blocked forever)"
+  else if impl == "crash" || impl == "panic" then "violation a panic escaped (send on / close of a closed channel)"
+  else
+  let (head, _) := headBody line
+  let toks := head.splitOn " "
+  let items := ((kv toks "spec").splitOn ",").map parseSpec
+  let last := (impl.splitOn " | ").getLastD ""
+  let ltoks := last.splitOn " "
+  if ltoks.headD "" != "end" then "violation malformed observation" else
+  if kv ltoks "pan" != "0" then "violation a panic in Reply / the asker (late reply hit a closed channel)" else
+  match ((kv ltoks "res").splitOn ",").filterMap (judgeResult items) with
+  | b :: _ => s!"violation {b}"
+  | [] =>
+    -- the actor must not sit in the select of a reply whose asker has already returned
+    let status := ltoks.getD 1 ""
+    let srv := ((kv ltoks "srv").splitOn ",").filterMap (·.toNat?)
+    match status.splitOn "/" with
+    | [as, act] =>
+      -- a reply that the actor has delivered (Reply returned) must have reached its asker, unless that asker is a
+      -- short-timeout one (which may be parked between its timer and its return)
+      let lost := srv.filter fun k =>
+        as.toList.getD k '-' == 'w' && (match items[k]? with | some (_, _, true) => false | _ => true)
+      if !lost.isEmpty then s!"violation Reply returned for request {lost.headD 0} but its asker never received the value"
+      else if act.startsWith "b" then
+        let k := ((act.drop 1).toString.toNat?).getD 0
+        let c := as.toList.getD k '-'
+        if c == 'T' || c == 'V' then s!"violation the actor is blocked in Reply although asker {k} has returned"
+        else "allowed"
+      else "allowed every returned value is the asker's own reply, timeouts are clean, the actor is not stuck"
+    | _ => "violation malformed status"
+
+def judge (line impl : String) : String :=
+  if line.startsWith "ask " then judgeAsk line impl
+  else if line.startsWith "askstress " then
+    if impl.startsWith "ok" then "allowed the monitors saw no violation" else s!"violation monitor: {impl}"
+  else "violation unknown case"
 
 end FpgoVerif.C13
